@@ -21,6 +21,8 @@ mod c07;
 #[cfg(kani)]
 mod c08;
 #[cfg(kani)]
+mod c17;
+#[cfg(kani)]
 mod warmup {
     kproof!(warmup, 4, {
         let x: u8 = kani::any();
